@@ -16,7 +16,7 @@ import (
 
 func init() {
 	Register(&Property{ID: "C08", Run: runC08,
-		Rule: "one real engine under the adversarial workload with all event kinds: inbound messages of every type and sequence relation, application sends at any step (also while disconnected), peer silence so that heartbeat/peer/logon/logout timers fire, cuts, Stop at any step, re-logons; both roles. Per-connection envelope monitor; store refusals at any step; connections whose first message is not a Logon; a slow application callback with a second frame waiting in the inbound channel behind a message that ends the session; the application sending from inside its inbound callbacks; the store refusing the write that counts an inbound message. Non-trivial: at least one completed logon and one ended connection with application traffic in the run; distinct: canonical trace hash"})
+		Rule: "one real engine under the adversarial workload with all event kinds: inbound messages of every type and sequence relation, application sends at any step (also while disconnected), peer silence so that heartbeat/peer/logon/logout timers fire, cuts, Stop at any step, re-logons; both roles. Per-connection envelope monitor; store refusals at any step; connections whose first message is not a Logon; a slow application callback with a second frame waiting in the inbound channel behind a message that ends the session; the application sending from inside its inbound callbacks; the store refusing the write that counts an inbound message; a third of the runs with the order in which the session loop serves its ready sources fixed by the simulator: callbacks of up to 2.6 heartbeat intervals while a frame waits and timers fall due, sends from callbacks while a frame waits. Non-trivial: at least one completed logon and one ended connection with application traffic in the run; distinct: canonical trace hash"})
 }
 
 // CheckC08 evaluates the envelope monitor over everything recorded so far. final: the run is over
